@@ -122,7 +122,7 @@ def jobs(tier):
 
 LEVEL = "other"
 BOUNDS = {
-    "quick": "consumer steps j = 0..total+2 (symbolic), S<=3 sources, N<=3 items (S=3: N<=2), islice/batched/enumerate parameters in 0..N+2 (real C tools as oracle), keys unbounded; async-generator sources and def callables",
+    "quick": "consumer steps j = 0..total+2 (symbolic), S<=3 sources, N<=3 items (S=3: N<=2), islice/batched/enumerate parameters in 0..N+2 (real C tools as oracle), keys unbounded; async-generator sources and def callables; extra jobs: callables doing their work at call time, falsy callable objects, cycle over an instrumented list / __getitem__ sequence, mixed async / plain-list arguments, one iterator in 2..3 positions of zip_longest, groupby pulls and key calls (incl. first keys equal to None)",
     "thorough": "N<=5 (S=2: 4), same structure",
 }
 OUTSIDE = ["pulls on a source that already signalled exhaustion are not events (CPython's own tools differ among themselves there)", "lengths above the bound", "aggregations other than all/any (they consume everything)"]
